@@ -1015,7 +1015,21 @@ func addHelperFiles(ov *overlaySet, hs []harnessDecl) {
 			}
 			p := filepath.Join(d, e.Name())
 			b, err := os.ReadFile(p)
-			if err != nil || !strings.Contains(string(b), "// verif:dir "+h.Dir+"\n") {
+			if err != nil {
+				continue
+			}
+			if strings.HasPrefix(e.Name(), "export_") {
+				// an export shim for ANOTHER package (gives the harness access to an unexported
+				// function of a dependency): overlaid into the directory it names
+				if i := strings.Index(string(b), "// verif:dir "); i >= 0 {
+					rest := string(b)[i+len("// verif:dir "):]
+					if j := strings.IndexByte(rest, '\n'); j > 0 {
+						ov.files[filepath.Join(*repoDir, strings.TrimSpace(rest[:j]), "zz_verif_"+e.Name())] = p
+					}
+				}
+				continue
+			}
+			if !strings.Contains(string(b), "// verif:dir "+h.Dir+"\n") {
 				continue
 			}
 			ov.files[filepath.Join(*repoDir, h.Dir, "zz_verif_"+e.Name())] = p
